@@ -251,6 +251,16 @@ class Program:
         if path.endswith("::from_residual") and "option::Option" in path:
             # `o?` on None: the enclosing function's Option result is None
             return ("enum", "core::option::Option", "None")
+        if (path.endswith("Option::is_some") or path.endswith("Option::is_none")) and len(args) == 1 and args[0][0] == "call" and args[0][1].endswith("::checked_sub") and len(args[0][2]) == 2 and "<impl u" in args[0][1]:
+            # a.checked_sub(b).is_some() == (b <= a) for unsigned a, b
+            from .an import mk_bin
+            a_, b_ = args[0][2]
+            return mk_bin("Le", b_, a_) if path.endswith("is_some") else mk_bin("Lt", a_, b_)
+        if path.endswith("Option::unwrap_or") and len(args) == 2 and args[1] == ("int", 0) and args[0][0] == "call" and args[0][1].endswith("::checked_sub") and len(args[0][2]) == 2:
+            # a.checked_sub(b).unwrap_or(0) == a.saturating_sub(b)
+            return ("call", args[0][1][: -len("checked_sub")] + "saturating_sub", args[0][2])
+        if path.endswith("Option::unwrap_or_default") and len(args) == 1 and args[0][0] == "call" and args[0][1].endswith("::checked_sub") and len(args[0][2]) == 2:
+            return ("call", args[0][1][: -len("checked_sub")] + "saturating_sub", args[0][2])
         if args and ("option::Option" in path or "result::Result" in path):
             # accessors of an Option/Result whose variant is known at this point (a helper taking `Option<..>` spliced
             # in at a call that passes `None` / `Some(v)`)
